@@ -75,6 +75,8 @@ func (e dEvent) String() string {
 		return "frame(other-mac,192.168.0.3)"
 	case "capture", "uncapture":
 		return fmt.Sprintf("%s(c%d)", e.Kind, e.K+1)
+	case "hunt":
+		return fmt.Sprintf("StartHunt(c%d)", e.K+1)
 	}
 	return fmt.Sprintf("%s(c%d,%s)", e.Kind, e.K+1, e.Req)
 }
@@ -114,7 +116,11 @@ func dhcpAlphabet() []dEvent {
 		// c4 (the hardware address of c1, another client identifier) declines the address acknowledged to another client
 		dEvent{Kind: "decline", K: 3, Req: "other"}, dEvent{Kind: "request", K: 3, Req: "replay"},
 		// the client selects a server whose identifier lies outside the home LAN (a relayed server)
-		dEvent{Kind: "request", K: 0, Req: "otherserver-offlan"})
+		dEvent{Kind: "request", K: 0, Req: "otherserver-offlan"},
+		// c1 asks for the address that is on offer (or acknowledged) to another client, e.g. c4 on the same hardware address
+		dEvent{Kind: "discover", K: 0, Req: "other"},
+		// the application starts hunting c1: the handler fakes a RELEASE of c1's lease towards the real server
+		dEvent{Kind: "hunt", K: 0})
 	return a
 }
 
@@ -317,6 +323,7 @@ func runDHCP(alpha []dEvent, hist []int, o dhcpOpts) *dhcpResult {
 			}
 			var reqXID uint32
 			var reqK = -1
+			var huntIP netip.Addr // StartHunt: the leased address whose RELEASE is faked
 			curK = ev.K
 			func() {
 				defer func() {
@@ -497,6 +504,18 @@ func runDHCP(alpha []dEvent, hist []int, o dhcpOpts) *dhcpResult {
 					} else {
 						deliver(dhcpFrame(ev.K, 7, 0x78, dIP(3), dHost, dIP(3), [][2][]byte{{{54}, dHost.AsSlice()}}))
 					}
+				case "hunt":
+					ip := dIP(3)
+					if a, ok := obs.acks[ev.K]; ok {
+						ip = a.ip
+					}
+					// the handler looks the lease up by address: the RELEASE is sent for whoever holds it
+					for k := 0; k < len(dClients); k++ {
+						if a, ok := obs.acks[k]; ok && a.ip == ip {
+							reqK, huntIP = k, ip
+						}
+					}
+					h.StartHunt(packet.Addr{MAC: dClients[ev.K], IP: ip})
 				case "capture":
 					s.Capture(dClients[ev.K])
 				case "uncapture":
@@ -536,6 +555,17 @@ func runDHCP(alpha []dEvent, hist []int, o dhcpOpts) *dhcpResult {
 					switch {
 					case !bytes.Equal(d.CHAddr, dClients[reqK]):
 						fail("frame", "decline-chaddr", fmt.Sprintf("forced DECLINE/RELEASE carries chaddr %x, the client it is sent for is %x", d.CHAddr, dClients[reqK]))
+					case ev.Kind == "hunt":
+						// the faked RELEASE of a hunted client's lease: RFC 2131 table 5 - ciaddr is the released address, the
+						// server identifier MUST be present (the handler passes the real server's address and the client id)
+						switch {
+						case d.MsgType != 7 || d.CIAddr != huntIP:
+							fail("frame", "release-ciaddr", fmt.Sprintf("StartHunt: faked message type %d with ciaddr %v, want a RELEASE of %v", d.MsgType, d.CIAddr, huntIP))
+						case !bytes.Equal(d.Options[54], dRouter.AsSlice()):
+							fail("frame", "release-server-id", fmt.Sprintf("StartHunt: the faked RELEASE carries server identifier %v, the handler addressed it to the server %v", d.Options[54], dRouter))
+						case !bytes.Equal(d.Options[61], wantID):
+							fail("frame", "release-clientid", fmt.Sprintf("StartHunt: the faked RELEASE carries client id %x, the lease belongs to %x", d.Options[61], wantID))
+						}
 					case x != reqXID:
 						fail("frame", "decline-xid", fmt.Sprintf("forced DECLINE/RELEASE carries xid %x, the client's message had %x", x, reqXID))
 					case d.Options[61] != nil && !bytes.Equal(d.Options[61], wantID):
@@ -763,11 +793,12 @@ func dhcpSeeds(alpha []dEvent) [][]int {
 		{d1, find("discover", 1, "other")},     // a second client asked for the address that is on offer to the first
 		{d1, r1, find("tick", 0, "")},          // a lease that has expired
 		{d1, find("discover", 1, "other"), r2}, // the address on offer to the first client was acknowledged to the second
-		{d1, find("tick", 0, ""), find("discover", 1, "other"), r2},    // same, after the first client's offer ran out
-		{d1, r1, tick2h, tickMin},                                      // a bound client that was silent for two hours: the session has purged its host entry
-		{d1, r1, tick2h, find("request", 0, "renew")},                  // a lease renewed half way through its life time
-		{find("capture", 0, ""), d1, r1, tick2h, tickMin},              // a captured client bound in the netfilter subnet whose session entry was purged
-		{find("capture", 0, ""), d1, find("discover", 1, "other"), r1}, // a captured client acknowledged the address that is also on offer to a client of the home subnet
+		{d1, find("tick", 0, ""), find("discover", 1, "other"), r2},     // same, after the first client's offer ran out
+		{d1, r1, tick2h, tickMin},                                       // a bound client that was silent for two hours: the session has purged its host entry
+		{d1, r1, tick2h, find("request", 0, "renew")},                   // a lease renewed half way through its life time
+		{find("capture", 0, ""), d1, r1, tick2h, tickMin},               // a captured client bound in the netfilter subnet whose session entry was purged
+		{find("capture", 0, ""), d1, find("discover", 1, "other"), r1},  // a captured client acknowledged the address that is also on offer to a client of the home subnet
+		{find("discover", 3, "none"), find("discover", 0, "other"), r1}, // the address on offer to c4 was acknowledged to c1 (same hardware address)
 	}
 }
 
